@@ -17,8 +17,20 @@ package c06
 // Search: states are the quiescent points of the bubble; a successor is computed by replaying the whole path in a
 // fresh bubble plus one event; states are merged on a canonical key. Default event = answer the oldest outstanding
 // request truthfully (cost 0); source steps cost 0 but are bounded in number; every other event costs one deviation.
-// All states reachable with <= k deviations are expanded (search_test.go); from every distinct state a convergence
-// run (truthful oldest-first answers + time advances) must make the local chain equal the source's.
+// All states reachable with <= k deviations are expanded (search_test.go). Convergence: the default-successor graph
+// over all explored states is followed to its terminal cycles and one real convergence run per cycle (source frozen,
+// truthful oldest-first answers, a minute passes whenever the configuration repeats) must make the local chain equal
+// the source's and keep it equal; that run decides every state whose default continuation enters the cycle.
+//
+// Build seam: prebuild.sh (conc/stream's process-wide channel pool cannot be shared between bubbles).
+// Reproduction aid: trace_test.go (VERIF_C06_TRACE_CFG / VERIF_C06_TRACE_PATH).
+//
+// Tolerances (harness would otherwise over-demand):
+//   - a stored block only has to be a VALID block extending the head (old-branch blocks served late may be stored if
+//     they link; the statement does not require "canonical when served");
+//   - new-head / reorg notifications are checked on emissions per quiescent step (order inside one feed, not the
+//     interleaving between the two feeds);
+//   - commits that do not move the head are ignored.
 
 import (
 	"context"
@@ -359,9 +371,9 @@ type served struct {
 // class names what the source did when it served this block, judged now.
 func (s *served) class(cur string) string {
 	switch {
-	case s.variant != vTrue:
+	case s.variant == vForgedParent:
 		return variantName[s.variant]
-	case !s.canonical:
+	case !s.canonical: // (for the other variants a parent mismatch comes from the branch the block is on)
 		return "old-branch-block"
 	case strings.HasPrefix(cur, s.name):
 		return "canonical-block"
